@@ -24,6 +24,26 @@ pub fn agree<F: Family>(b: &[u8], origin: &str, ctx: &mut Ctx) -> CaseResult {
             hex_short(b, 96)
         ),
     }
+    // the async decoder's answer does not depend on how the bytes arrive either (1, 2, 3 or 7 bytes per read, with
+    // Pendings in between)
+    if b.len() <= 4_096 {
+        let k = [1usize, 2, 3, 7][(fnv(b) % 4) as usize];
+        let (chunked, used_c) = fam::dec_async_chunked::<F>(b, k);
+        let same = match (&asyn, &chunked) {
+            (Ok(x), Ok(y)) => x == y,
+            (Err(x), Err(y)) => x == y || (F::is_eof(x) && F::is_eof(y)),
+            _ => false,
+        };
+        ensure!(
+            same,
+            "async decoder over a transport delivering {} byte(s) per read returned {:?} after {} bytes; reading from a slice it returns {:?}; input {}",
+            k,
+            chunked.as_ref().map(|q| fam::render(q)),
+            used_c,
+            asyn.as_ref().map(|q| fam::render(q)),
+            hex_short(b, 96)
+        );
+    }
     let hb = F::header_decode(b);
     let mut r: &[u8] = b;
     let ha = futures_lite::future::block_on(F::header_decode_async(&mut r));
